@@ -169,6 +169,15 @@ def F36():
     return [t.id for t in w.roots] == [3, 1, 4]
 
 
+def F37():
+    """C01: a task listed twice in predecessors/successors is mirrored by ONE entry on the other side; clearing the other
+    side removes one of the two entries and the links stop being symmetric (found by a round-4 change author)"""
+    c, d = Task(3), Task(4)
+    c.predecessors = [d, d]
+    d.successors = []
+    return (d in c.predecessors) == (c in d.successors)
+
+
 def F11():
     """C15 (known): constructor / multi-receiver operators are sequences of atomic setter calls"""
     t1 = Task(1)
@@ -482,7 +491,7 @@ def F34c():
     return run(datetime(2025, 1, 6)) == run(datetime(2026, 1, 5))
 
 
-ALL = [F1, F2, F3, F4, F35, F5, F6, F7, F8, F9, F10, F36, F11, F11b, F11c, F13, F14, F14b, F15, F16, F17, F19, F20, F21, F22, F23, F24,
+ALL = [F1, F2, F3, F4, F35, F5, F6, F7, F8, F9, F10, F36, F37, F11, F11b, F11c, F13, F14, F14b, F15, F16, F17, F19, F20, F21, F22, F23, F24,
        F25, F26, F27, F28, F30, F33, F34, F34b, F34c]
 
 if __name__ == '__main__':
